@@ -8,87 +8,98 @@ use netflow_parser::variable_versions::ipfix_lookup::IPFixField;
 use netflow_parser::variable_versions::v9_lookup::V9Field;
 use netflow_parser::variable_versions::{ipfix, v9};
 use netflow_parser::verif_shim::VMap;
+use netflow_parser::netflow_common::NetflowCommon;
 use netflow_parser::{NetflowPacket, NetflowParser};
 use std::net::{IpAddr, Ipv4Addr, Ipv6Addr};
 
-fn v9_packet(records: Vec<VMap<usize, (V9Field, FieldValue)>>, up: u32) -> NetflowPacket {
+fn v9_packet(records: Vec<VMap<usize, (V9Field, FieldValue)>>, up: u32) -> v9::V9 {
     let d = v9::Data { fields: records, padding: Vec::new() };
     let fs = v9::FlowSet { header: v9::FlowSetHeader { flowset_id: 256, length: kani::any() }, body: v9::FlowSetBody::Data(d) };
-    NetflowPacket::V9(v9::V9 {
+    v9::V9 {
         header: v9::Header { version: 9, count: 1, sys_up_time: up, unix_secs: kani::any(), sequence_number: kani::any(), source_id: kani::any() },
         flowsets: vec![fs],
-    })
+    }
 }
 
-/// V9: records with (optional) IPv4 or IPv6 addresses and ports, in symbolic field order:
-/// one flow per record, in order; present fields projected, absent ones None.
-#[kani::proof]
-#[kani::stub(core::fmt::write, no_fmt)]
-fn cv_v9_addr_ports() {
-    let up: u32 = kani::any();
-    let v6: bool = kani::any();
-    let has_dst: bool = kani::any();
-    let has_port: bool = kani::any();
-    let swap: bool = kani::any();
-    let a4: u32 = kani::any();
-    let b4: u32 = kani::any();
-    let a6: u128 = kani::any();
-    let sp: u16 = kani::any();
-    let dp: u16 = kani::any();
-    let mut recs = Vec::new();
-    let nrec: usize = if kani::any() { 2 } else { 1 };
-    let mut r = 0;
-    while r < 2 {
-        if r < nrec {
-            let mut m = VMap::new();
-            // record r uses a4+r so that order of records is observable
-            let src = if v6 { (V9Field::Ipv6SrcAddr, FieldValue::Ip6Addr(Ipv6Addr::from(a6.wrapping_add(r as u128)))) } else { (V9Field::Ipv4SrcAddr, FieldValue::Ip4Addr(Ipv4Addr::from(a4.wrapping_add(r as u32)))) };
-            let (k_src, k_port) = if swap { (1usize, 0usize) } else { (0usize, 1usize) };
-            m.insert(k_src, src);
-            if has_port {
-                m.insert(k_port, (V9Field::L4SrcPort, FieldValue::DataNumber(DataNumber::U16(sp))));
-                m.insert(2usize, (V9Field::L4DstPort, FieldValue::DataNumber(DataNumber::U16(dp))));
-            }
-            if has_dst {
-                m.insert(3usize, (V9Field::Ipv4DstAddr, FieldValue::Ip4Addr(Ipv4Addr::from(b4))));
-            }
-            recs.push(m);
-        }
-        r += 1;
-    }
-    let pkt = v9_packet(recs, up);
-    match pkt.as_netflow_common() {
-        Ok(c) => {
-            assert!(c.version == 9 && c.timestamp == up);
-            assert!(c.flowsets.len() == nrec);
+/// V9: records with IPv4 or IPv6 source, optional IPv4 destination and optional ports; the
+/// shape (address family, which fields are present, field order, record count) is written
+/// per harness, the values are symbolic.  One flow per record, in order; present fields
+/// projected, absent ones None.  Calls `NetflowCommon::from(&V9)` (the conversion itself);
+/// the dispatch through `NetflowPacket::as_netflow_common` is covered by the V5/V7 harnesses.
+macro_rules! cv_v9_addr_ports {
+    ($name:ident, $v6:expr, $has_dst:expr, $has_port:expr, $swap:expr, $nrec:expr) => {
+        #[kani::proof]
+        #[kani::stub(core::fmt::write, no_fmt)]
+        fn $name() {
+            const V6: bool = $v6;
+            const HAS_DST: bool = $has_dst;
+            const HAS_PORT: bool = $has_port;
+            const SWAP: bool = $swap;
+            const NREC: usize = $nrec;
+            let up: u32 = kani::any();
+            let a4: u32 = kani::any();
+            let b4: u32 = kani::any();
+            let a6: u128 = kani::any();
+            let sp: u16 = kani::any();
+            let dp: u16 = kani::any();
+            let mut recs = Vec::new();
             let mut r = 0;
-            while r < 2 {
-                if r < nrec {
-                    let f = &c.flowsets[r];
-                    if v6 {
-                        assert!(f.src_addr == Some(IpAddr::V6(Ipv6Addr::from(a6.wrapping_add(r as u128)))));
-                    } else {
-                        assert!(f.src_addr == Some(IpAddr::V4(Ipv4Addr::from(a4.wrapping_add(r as u32)))));
+            while r < NREC {
+                let mut m = VMap::new();
+                // record r uses a+r so that the order of records is observable
+                let src = if V6 { (V9Field::Ipv6SrcAddr, FieldValue::Ip6Addr(Ipv6Addr::from(a6.wrapping_add(r as u128)))) } else { (V9Field::Ipv4SrcAddr, FieldValue::Ip4Addr(Ipv4Addr::from(a4.wrapping_add(r as u32)))) };
+                let (k_src, k_port) = if SWAP { (1usize, 0usize) } else { (0usize, 1usize) };
+                if SWAP && HAS_PORT {
+                    m.insert(k_port, (V9Field::L4SrcPort, FieldValue::DataNumber(DataNumber::U16(sp))));
+                    m.insert(k_src, src);
+                } else {
+                    m.insert(k_src, src);
+                    if HAS_PORT {
+                        m.insert(k_port, (V9Field::L4SrcPort, FieldValue::DataNumber(DataNumber::U16(sp))));
                     }
-                    assert!(f.dst_addr == if has_dst { Some(IpAddr::V4(Ipv4Addr::from(b4))) } else { None });
-                    assert!(f.src_port == if has_port { Some(sp) } else { None });
-                    assert!(f.dst_port == if has_port { Some(dp) } else { None });
-                    assert!(f.protocol_number.is_none() && f.protocol_type.is_none());
-                    assert!(f.first_seen.is_none() && f.last_seen.is_none());
-                    assert!(f.src_mac.is_none() && f.dst_mac.is_none());
                 }
+                if HAS_PORT {
+                    m.insert(2usize, (V9Field::L4DstPort, FieldValue::DataNumber(DataNumber::U16(dp))));
+                }
+                if HAS_DST {
+                    m.insert(3usize, (V9Field::Ipv4DstAddr, FieldValue::Ip4Addr(Ipv4Addr::from(b4))));
+                }
+                recs.push(m);
                 r += 1;
             }
-            kani::cover!(nrec == 2 && v6 && swap);
+            let d = v9::Data { fields: recs, padding: Vec::new() };
+            let fs = v9::FlowSet { header: v9::FlowSetHeader { flowset_id: 256, length: kani::any() }, body: v9::FlowSetBody::Data(d) };
+            let pkt = v9::V9 {
+                header: v9::Header { version: 9, count: 1, sys_up_time: up, unix_secs: kani::any(), sequence_number: kani::any(), source_id: kani::any() },
+                flowsets: vec![fs],
+            };
+            let c = NetflowCommon::from(&pkt);
+            assert!(c.version == 9 && c.timestamp == up);
+            assert!(c.flowsets.len() == NREC);
+            let mut r = 0;
+            while r < NREC {
+                let f = &c.flowsets[r];
+                if V6 {
+                    assert!(f.src_addr == Some(IpAddr::V6(Ipv6Addr::from(a6.wrapping_add(r as u128)))));
+                } else {
+                    assert!(f.src_addr == Some(IpAddr::V4(Ipv4Addr::from(a4.wrapping_add(r as u32)))));
+                }
+                assert!(f.dst_addr == if HAS_DST { Some(IpAddr::V4(Ipv4Addr::from(b4))) } else { None });
+                assert!(f.src_port == if HAS_PORT { Some(sp) } else { None });
+                assert!(f.dst_port == if HAS_PORT { Some(dp) } else { None });
+                assert!(f.protocol_number.is_none() && f.protocol_type.is_none());
+                assert!(f.first_seen.is_none() && f.last_seen.is_none());
+                assert!(f.src_mac.is_none() && f.dst_mac.is_none());
+                r += 1;
+            }
             core::mem::forget(c);
+            core::mem::forget(pkt);
         }
-        Err(e) => {
-            assert!(false);
-            core::mem::forget(e);
-        }
-    }
-    core::mem::forget(pkt);
+    };
 }
+cv_v9_addr_ports!(cv_v9_v4_full_2rec, false, true, true, false, 2);
+cv_v9_addr_ports!(cv_v9_v6_ports_swapped, true, false, true, true, 1);
+cv_v9_addr_ports!(cv_v9_v4_only, false, false, false, false, 1);
 
 /// V9: MAC addresses (decoded as text by the MAC kernel) are projected as that text.
 #[kani::proof]
@@ -98,20 +109,13 @@ fn cv_v9_mac() {
     m.insert(0usize, (V9Field::InSrcMac, FieldValue::MacAddr(String::from("0A:1B"))));
     m.insert(1usize, (V9Field::InDstMac, FieldValue::MacAddr(String::from("2C:3D"))));
     let pkt = v9_packet(vec![m], 7);
-    match pkt.as_netflow_common() {
-        Ok(c) => {
-            assert!(c.flowsets.len() == 1);
-            let f = &c.flowsets[0];
-            assert!(f.src_mac.as_deref() == Some("0A:1B"));
-            assert!(f.dst_mac.as_deref() == Some("2C:3D"));
-            assert!(f.src_addr.is_none());
-            core::mem::forget(c);
-        }
-        Err(e) => {
-            assert!(false);
-            core::mem::forget(e);
-        }
-    }
+    let c = NetflowCommon::from(&pkt);
+    assert!(c.flowsets.len() == 1);
+    let f = &c.flowsets[0];
+    assert!(f.src_mac.as_deref() == Some("0A:1B"));
+    assert!(f.dst_mac.as_deref() == Some("2C:3D"));
+    assert!(f.src_addr.is_none());
+    core::mem::forget(c);
     core::mem::forget(pkt);
 }
 
@@ -128,86 +132,81 @@ fn cv_v9_protocol_times_kf() {
     m.insert(0usize, (V9Field::Protocol, FieldValue::ProtocolType(ProtocolTypes::from(n))));
     m.insert(1usize, (V9Field::FirstSwitched, FieldValue::Duration(std::time::Duration::from_millis(ms as u64))));
     let pkt = v9_packet(vec![m], 7);
-    if let Ok(c) = pkt.as_netflow_common() {
-        let f = &c.flowsets[0];
-        assert!(f.protocol_number == Some(n));
-        assert!(f.first_seen == Some(ms));
-        core::mem::forget(c);
-    }
+    let c = NetflowCommon::from(&pkt);
+    let f = &c.flowsets[0];
+    assert!(f.protocol_number == Some(n));
+    assert!(f.first_seen == Some(ms));
+    core::mem::forget(c);
     core::mem::forget(pkt);
 }
 
-fn ipfix_packet(maps: Vec<VMap<usize, (IPFixField, FieldValue)>>, et: u32) -> NetflowPacket {
+fn ipfix_packet(maps: Vec<VMap<usize, (IPFixField, FieldValue)>>, et: u32) -> ipfix::IPFix {
     let d = ipfix::Data { fields: maps, padding: Vec::new() };
     let fs = ipfix::FlowSet { header: ipfix::FlowSetHeader { header_id: 256, length: kani::any() }, body: ipfix::FlowSetBody::Data(d) };
-    NetflowPacket::IPFix(ipfix::IPFix {
+    ipfix::IPFix {
         header: ipfix::Header { version: 10, length: kani::any(), export_time: et, sequence_number: kani::any(), observation_domain_id: kani::any() },
         flowsets: vec![fs],
-    })
+    }
 }
 
 /// IPFIX, single-field templates (the only case in which today's one-map-per-field result
-/// coincides with one map per record): one flow per record, field projected.
-#[kani::proof]
-#[kani::stub(core::fmt::write, no_fmt)]
-fn cv_ipfix_single_field() {
-    let et: u32 = kani::any();
-    let which: u8 = kani::any();
-    kani::assume(which < 5);
-    let a4: u32 = kani::any();
-    let a6: u128 = kani::any();
-    let port: u16 = kani::any();
-    let proto: u8 = kani::any();
-    let up: u32 = kani::any();
-    let nrec: usize = if kani::any() { 2 } else { 1 };
-    let mut maps = Vec::new();
-    let mut r = 0;
-    while r < 2 {
-        if r < nrec {
-            let mut m = VMap::new();
-            let e = match which {
-                0 => (IPFixField::SourceIpv4address, FieldValue::Ip4Addr(Ipv4Addr::from(a4.wrapping_add(r as u32)))),
-                1 => (IPFixField::DestinationIpv6address, FieldValue::Ip6Addr(Ipv6Addr::from(a6.wrapping_add(r as u128)))),
-                2 => (IPFixField::DestinationTransportPort, FieldValue::DataNumber(DataNumber::U16(port.wrapping_add(r as u16)))),
-                3 => (IPFixField::ProtocolIdentifier, FieldValue::DataNumber(DataNumber::U8(proto))),
-                _ => (IPFixField::FlowStartSysUpTime, FieldValue::DataNumber(DataNumber::U32(up))),
-            };
-            m.insert(0usize, e);
-            maps.push(m);
-        }
-        r += 1;
-    }
-    let pkt = ipfix_packet(maps, et);
-    match pkt.as_netflow_common() {
-        Ok(c) => {
-            assert!(c.version == 10 && c.timestamp == et);
-            assert!(c.flowsets.len() == nrec);
+/// coincides with one map per record): one flow per record, field projected.  The field
+/// kind and record count are written per harness.
+macro_rules! cv_ipfix_single_field {
+    ($name:ident, $which:expr, $nrec:expr) => {
+        #[kani::proof]
+        #[kani::stub(core::fmt::write, no_fmt)]
+        fn $name() {
+            const WHICH: u8 = $which;
+            const NREC: usize = $nrec;
+            let et: u32 = kani::any();
+            let a4: u32 = kani::any();
+            let a6: u128 = kani::any();
+            let port: u16 = kani::any();
+            let proto: u8 = kani::any();
+            let up: u32 = kani::any();
+            let mut maps = Vec::new();
             let mut r = 0;
-            while r < 2 {
-                if r < nrec {
-                    let f = &c.flowsets[r];
-                    assert!(f.src_addr == if which == 0 { Some(IpAddr::V4(Ipv4Addr::from(a4.wrapping_add(r as u32)))) } else { None });
-                    assert!(f.dst_addr == if which == 1 { Some(IpAddr::V6(Ipv6Addr::from(a6.wrapping_add(r as u128)))) } else { None });
-                    assert!(f.dst_port == if which == 2 { Some(port.wrapping_add(r as u16)) } else { None });
-                    assert!(f.src_port.is_none());
-                    assert!(f.protocol_number == if which == 3 { Some(proto) } else { None });
-                    assert!(f.protocol_type == if which == 3 { Some(ProtocolTypes::from(proto)) } else { None });
-                    assert!(f.first_seen == if which == 4 { Some(up) } else { None });
-                    assert!(f.last_seen.is_none());
-                }
+            while r < NREC {
+                let mut m = VMap::new();
+                let e = match WHICH {
+                    0 => (IPFixField::SourceIpv4address, FieldValue::Ip4Addr(Ipv4Addr::from(a4.wrapping_add(r as u32)))),
+                    1 => (IPFixField::DestinationIpv6address, FieldValue::Ip6Addr(Ipv6Addr::from(a6.wrapping_add(r as u128)))),
+                    2 => (IPFixField::DestinationTransportPort, FieldValue::DataNumber(DataNumber::U16(port.wrapping_add(r as u16)))),
+                    3 => (IPFixField::ProtocolIdentifier, FieldValue::DataNumber(DataNumber::U8(proto))),
+                    _ => (IPFixField::FlowStartSysUpTime, FieldValue::DataNumber(DataNumber::U32(up))),
+                };
+                m.insert(0usize, e);
+                maps.push(m);
                 r += 1;
             }
-            kani::cover!(nrec == 2 && which == 1);
-            kani::cover!(which == 3);
+            let pkt = ipfix_packet(maps, et);
+            let c = NetflowCommon::from(&pkt);
+            assert!(c.version == 10 && c.timestamp == et);
+            assert!(c.flowsets.len() == NREC);
+            let mut r = 0;
+            while r < NREC {
+                let f = &c.flowsets[r];
+                assert!(f.src_addr == if WHICH == 0 { Some(IpAddr::V4(Ipv4Addr::from(a4.wrapping_add(r as u32)))) } else { None });
+                assert!(f.dst_addr == if WHICH == 1 { Some(IpAddr::V6(Ipv6Addr::from(a6.wrapping_add(r as u128)))) } else { None });
+                assert!(f.dst_port == if WHICH == 2 { Some(port.wrapping_add(r as u16)) } else { None });
+                assert!(f.src_port.is_none());
+                assert!(f.protocol_number == if WHICH == 3 { Some(proto) } else { None });
+                assert!(f.protocol_type == if WHICH == 3 { Some(ProtocolTypes::from(proto)) } else { None });
+                assert!(f.first_seen == if WHICH == 4 { Some(up) } else { None });
+                assert!(f.last_seen.is_none());
+                r += 1;
+            }
             core::mem::forget(c);
+            core::mem::forget(pkt);
         }
-        Err(e) => {
-            assert!(false);
-            core::mem::forget(e);
-        }
-    }
-    core::mem::forget(pkt);
+    };
 }
+cv_ipfix_single_field!(cv_ipfix_src4_2rec, 0, 2);
+cv_ipfix_single_field!(cv_ipfix_dst6, 1, 1);
+cv_ipfix_single_field!(cv_ipfix_port_2rec, 2, 2);
+cv_ipfix_single_field!(cv_ipfix_proto, 3, 1);
+cv_ipfix_single_field!(cv_ipfix_start, 4, 1);
 
 /// Known-finding witness C13-ipfix-flow-per-field: a two-field record (two single-entry
 /// maps, as ipfix::FieldParser produces) becomes two flows instead of one.
@@ -221,10 +220,9 @@ fn cv_ipfix_two_fields_kf() {
     let mut m1 = VMap::new();
     m1.insert(1usize, (IPFixField::SourceTransportPort, FieldValue::DataNumber(DataNumber::U16(port))));
     let pkt = ipfix_packet(vec![m0, m1], 1);
-    if let Ok(c) = pkt.as_netflow_common() {
-        assert!(c.flowsets.len() == 1);
-        core::mem::forget(c);
-    }
+    let c = NetflowCommon::from(&pkt);
+    assert!(c.flowsets.len() == 1);
+    core::mem::forget(c);
     core::mem::forget(pkt);
 }
 
